@@ -235,6 +235,16 @@ def _issub(e, st, node, a, b):
     return a.kind == b.kind
 
 
+@prim('issubclass')
+def _issubclass(e, st, node, a, b):
+    """issubclass(arr.dtype.type, numbers.Integral / np.integer / np.floating): decided by the array's kind"""
+    if isinstance(b, Func) and b.name.split('.')[-1].replace('method:', '') == 'Integral':
+        b = KindTag('int')
+    if not (isinstance(a, KindTag) and isinstance(b, KindTag)):
+        raise Unsupported('issubclass form')
+    return a.kind == b.kind
+
+
 @prim('isinstance')
 def _isinstance(e, st, node, x, cls):
     v = e.deref(st, x)
@@ -445,9 +455,10 @@ def _cumsum(e, st, node, x, axis=None, dtype=None):
     return e.new_obj(st, Arr(Cs, a.shape, a.kind))
 
 
-@prim('np.maximum', 'np.minimum')
+@prim('np.maximum', 'np.minimum', 'np.fmax', 'np.fmin')
 def _maxmin(e, st, node, x, y):
-    big = node.func.attr == 'maximum'
+    # fmax / fmin differ from maximum / minimum only on NaN operands (not modelled: reals)
+    big = node.func.attr in ('maximum', 'fmax')
     X, Y = e.deref(st, x), e.deref(st, y)
     arrs = [v for v in (X, Y) if isinstance(v, Arr)]
     if not arrs:
@@ -463,6 +474,46 @@ def _maxmin(e, st, node, x, y):
         a, b = g(X, ix), g(Y, ix)
         return z3.If((a >= b) if big else (a <= b), a, b)
     return e.new_obj(st, e.lam(f, shape, kind))
+
+
+@prim('np.meshgrid')
+def _meshgrid(e, st, node, x, y, indexing=None, **kw):
+    """two 1-d vectors: 'ij' -> (len x, len y) grids X[i,j]=x[i], Y[i,j]=y[j]; default 'xy' -> (len y, len x) grids X[i,j]=x[j], Y[i,j]=y[i]"""
+    X, Y = e.deref(st, x), e.deref(st, y)
+    if kw or not all(isinstance(v, Arr) and v.ndim == 1 for v in (X, Y)):
+        raise Unsupported('meshgrid form')
+    if indexing is not None and not (isinstance(indexing, Str) and indexing.s in ('ij', 'xy')):
+        raise Unsupported('meshgrid indexing')
+    ij = indexing is not None and indexing.s == 'ij'
+    shape = (X.shape[0], Y.shape[0]) if ij else (Y.shape[0], X.shape[0])
+    gx = e.lam((lambda i, j: X[i]) if ij else (lambda i, j: X[j]), shape, X.kind)
+    gy = e.lam((lambda i, j: Y[j]) if ij else (lambda i, j: Y[i]), shape, Y.kind)
+    return Tup([e.new_obj(st, gx), e.new_obj(st, gy)])
+
+
+@prim('np.divide', 'np.true_divide')
+def _divide(e, st, node, x, y, out=None, **kw):
+    """element-wise real quotient of equal-shape arrays (or array / scalar); with out= the quotient is stored into that array, which is returned.
+    Division by zero does not raise in NumPy (inf / nan): the quotient by 0 is left unspecified (z3's total division)."""
+    if kw:
+        raise Unsupported('np.divide keywords %r' % (sorted(kw),))
+    X, Y = e.deref(st, x), e.deref(st, y)
+    if not isinstance(X, Arr):
+        raise Unsupported('np.divide of a scalar')
+    if isinstance(Y, Arr):
+        if Y.ndim != X.ndim:
+            raise Unsupported('np.divide broadcasting')
+        e.emit(e.site('shape', node), st, z3.And(*[s == t for s, t in zip(X.shape, Y.shape)]))
+    g = lambda v, ix: e.num(v[tuple(ix)] if isinstance(v, Arr) else to_z3(v), 'real')
+    q = e.lam(lambda *ix: g(X, ix) / g(Y, ix), X.shape, 'real')
+    if out is None or isinstance(out, NoneV):
+        return e.new_obj(st, q)
+    O = e.deref(st, out)
+    if not isinstance(O, Arr) or O.ndim != X.ndim or O.kind != 'real':
+        raise Unsupported('np.divide out=')
+    e.emit(e.site('out-shape', node), st, z3.And(*[s == t for s, t in zip(X.shape, O.shape)]))
+    st.heap[out.oid] = Arr(q.term, O.shape, 'real', None, O.meta)
+    return out
 
 
 @prim('itertools.repeat')
